@@ -13,6 +13,8 @@ from props.common import merge
 DESCS = [
     # cells that csv must quote for reasons other than a comma: a lone carriage return (no comma, quote or line feed in the cell), a line separator, a tab
     'T154N-R97W\rSec 14: NE/4',
+    # falsy values inside list cells: lot number 0 (ilots holds the int 0), section 0
+    'T154N-R97W Sec 0: Lot 0, Lot 1(38.29), Lots 00 - 2 and NE/4',
     'T154N-R97W Sec 14: NE/4\u2028and the S/2 of the\tSW/4 =SUM(A1)',
     'T154N-R97W Sec 14: Lots 1 - 3, Lot 1, NE/4 less and except the well',
     'T154N-R97W Sec 14: Lot 1(38.12), Lot 2 [40.00], N/2 of Lot 3, "quoted, text" in the SW/4\nT155N-R97W Sec 1: ALL, including the wellbore',
@@ -101,7 +103,7 @@ def run(tier, mode):
         fi = 0
         for di, d in enumerate(descs):
             tl = d.tracts
-            sets = att_sets if di < 4 else [r.choice(att_sets) for _ in range(12 if tier == 'quick' else 60)]
+            sets = att_sets if di < 5 else [r.choice(att_sets) for _ in range(12 if tier == 'quick' else 60)]
             for atts in sets:
                 # ---- records
                 recs_l = H.call(tl.tracts_to_list, atts)
